@@ -471,6 +471,14 @@ func (r *Run) havocLoop(st *State, fr *Frame, li *LoopInfo) {
 	}
 	if all {
 		e.havocAllHeap(st, "loop")
+		// the loop's own events still change the per-execution counters
+		for n := range regions {
+			for rn := range e.regions {
+				if (strings.HasPrefix(rn, "cnt") || rn == "chan.sent" || rn == "chan.recvd") && (rn == n || (strings.HasSuffix(n, ".") && strings.HasPrefix(rn, n))) {
+					e.havocRegion(st, rn)
+				}
+			}
+		}
 	} else {
 		var names []string
 		for n := range regions {
